@@ -1510,8 +1510,17 @@ def template_product():
             yield "%s${%s}%s" % (pre, f, suf)
 
 
+NONASCII_ESCAPED = {
+    "classic": [r"» %(message)s\t«", r"é\n%(levelname)s ü", r"%(name)s →\r"],
+    "format": [r"» {message}\t«", r"é\n{levelname} ü", r"{name} →\f"],
+    "template": [r"» $message\t«", r"é\n${levelname} ü", r"$name →\b"],
+}
+NONASCII_ESCAPED["safe-template"] = NONASCII_ESCAPED["template"]
+
+
 def core_formats(style):
-    out = list(FIELDLESS[style]) + list(MALFORMED[style])
+    out = list(FIELDLESS[style]) + list(MALFORMED[style]) + \
+        list(NONASCII_ESCAPED[style])
     for f in ALL_FIELDS:
         if style == "classic":
             out += ["%%(%s)s" % f, "%%(%s)d" % f, "%%(%s)r end" % f]
